@@ -117,6 +117,12 @@ func isOnCurve(c elliptic.Curve, x, y *big.Int) bool {
 	if x == nil || y == nil {
 		return false
 	}
+	// coordinates are field elements: the curve equation is evaluated modulo p, so without this range check
+	// (x+p, y) and the like would be accepted as a second, non-canonical encoding of the point (x, y)
+	p := c.Params().P
+	if x.Sign() < 0 || y.Sign() < 0 || x.Cmp(p) >= 0 || y.Cmp(p) >= 0 {
+		return false
+	}
 	return c.IsOnCurve(x, y)
 }
 
